@@ -103,6 +103,42 @@ def run(v, O):
         out.append((f'[{i}] round trip', O.eq(back[i], xs[i], 1e-9)))
     return out
 '''
+EDGE_SRC = '''
+import numpy as np, math
+def run(v, O):
+    # concrete edge inputs: arrays that contain a zero or a tiny ratio (the other elements keep their formula values), Decimal temperatures
+    from decimal import Decimal
+    out = []
+    with np.errstate(all='ignore'):
+        for u, w, xs, ref, scale in v.arrays:
+            r = Quantity(np.array(xs, dtype=float), u).to(w).value()
+            out.append((f'{xs} {u} -> {w}: one level per element', O.same(getattr(r, 'shape', None), (len(xs),))))
+            if getattr(r, 'shape', None) != (len(xs),):
+                continue
+            for i, x in enumerate(xs):
+                if x > 0:
+                    out.append((f'{xs} {u} -> {w}: element {i}', O.same(math.isfinite(float(r[i])), True) and O.eq(float(r[i]), scale * math.log10(x / ref), 1e-9)))
+                else:
+                    out.append((f'{xs} {u} -> {w}: element {i} (no signal) is minus infinity', O.same(float(r[i]) == float('-inf'), True)))
+            back = Quantity(r, w).to(u).value()
+            for i, x in enumerate(xs):
+                out.append((f'{xs} {u} -> {w} -> {u}: element {i}', O.same(math.isfinite(float(back[i])), True) and O.eq(float(back[i]) / x if x > 0 else float(back[i]), 1.0 if x > 0 else 0.0, 1e-9)))
+    for u, w, text in v.decimals:
+        x = Decimal(text)
+        want = x * 9 / 5 + 32 if (u, w) == ('Cel', 'degF') else (x - 32) * 5 / 9
+        try:
+            r = Quantity(x, u).to(w).value()
+        except Exception as e:
+            out.append((f'Decimal {text} {u} -> {w}: converted', O.same(type(e).__name__, None)))
+            continue
+        out.append((f'Decimal {text} {u} -> {w}: value', O.eq(float(r), float(want), 1e-12)))
+        out.append((f'Decimal {text} {u} -> {w}: stays a Decimal', O.same(type(r).__name__, 'Decimal')))
+        out.append((f'Decimal {text} {u} -> {w} -> {u}: round trip', O.eq(float(Quantity(x, u).to(w).to(u).value()), float(x), 1e-12)))
+    return out
+'''
+EDGE_ARRAYS = [('mW', 'dBm', [0.0, 1.0, 100.0], 1.0, 10.0), ('W', 'dBm', [1e-30, 1.0, 100.0], 1e-3, 10.0), ('W', 'dBW', [1e-20, 0.0], 1.0, 10.0), ('PR', 'dB', [0.0, 1.0, 1e-25], 1.0, 10.0),
+               ('V', 'dBV', [0.0, 1.0, 10.0], 1.0, 20.0), ('V', 'dBV', [1e-20, 2.0], 1.0, 20.0), ('mW', 'dBm', [3.0], 1.0, 10.0)]
+EDGE_DECIMALS = [('Cel', 'degF', '20'), ('Cel', 'degF', '-40'), ('Cel', 'degF', '36.6'), ('degF', 'Cel', '68'), ('degF', 'Cel', '-40'), ('degF', 'Cel', '98.6'), ('Cel', 'degF', '0')]
 ARRADD_SRC = '''
 def run(v, O):
     p = lambda t: O.pow(10, t / v.scale)
@@ -218,6 +254,7 @@ def scenarios(tier, seed):
                           what=f'element-wise level addition of arrays in {w}', samples=2))
     for w1, w2 in (('B', 'Np'), ('Np', 'B'), ('dB', 'Np'), ('dB', 'cNp'), ('cNp', 'dB'), ('dNp', 'B'), ('B', 'dNp')):
         S.append(Scenario(f'roundtrip/{w1}<->{w2}', RT_SRC, {'y': 'real'}, consts={'w1': w1, 'w2': w2}, preamble=PRE, what=f'level conversion {w1} -> {w2} -> {w1}', samples=2))
+    S.append(Scenario('edge-inputs', EDGE_SRC, {}, consts={'arrays': EDGE_ARRAYS, 'decimals': EDGE_DECIMALS}, preamble=PRE, what='arrays containing a zero or a tiny ratio converted to levels; Decimal temperatures (concrete)', samples=1))
     S.append(Scenario('canary/temp', TEMP_SRC, {'x': 'real'}, ['v.x >= 0'], consts={'u': 'Cel', 'w': 'degR'}, preamble=PRE.replace('273.15', '273.25'), canary=True))
     S.append(Scenario('canary/log', LOG_SRC, R2, ['v.x > 0'], consts={'u': 'W', 'w': 'dBm', 'k': 2, 'ref': 1e-3, 'scale': 10.0, 'kind': 'log10'}, preamble=PRE, canary=True))
     S.append(Scenario('canary/add', ADD_SRC, {'a': 'real', 'b': 'real'}, consts={'w': 'dBm', 'scale': 20.0}, preamble=PRE, canary=True))
@@ -234,7 +271,18 @@ def tasks(tier, seed):
 def run_task(task):
     S = scenarios(task['tier'], task['seed'])
     i, k = task['slice']
-    res = run_scenarios(S[i::k], unitkit.units_patches, timeout_ms=20000, seed=task['seed'], div_zero='fork')
+    mine = S[i::k]
+    res = run_scenarios([s for s in mine if s.key != 'edge-inputs'], unitkit.units_patches, timeout_ms=20000, seed=task['seed'], div_zero='fork')
+    import contextlib
+    res2 = run_scenarios([s for s in mine if s.key == 'edge-inputs'], contextlib.nullcontext, timeout_ms=20000, seed=task['seed'])      # concrete inputs on the unpatched library
+    for key, val in res2.items():
+        if key == 'stats':
+            for kk, vv in val.items():
+                res['stats'][kk] = res['stats'].get(kk, 0) + vv
+        elif isinstance(val, list):
+            res[key] = res.get(key, []) + val
+        else:
+            res[key] = res.get(key, 0) + val
     if i == 0:
         # fail closed when the library's conversion table has rows the oracle table does not know
         from scinumtools.units.unit_types import LogarithmicUnitType
